@@ -22,6 +22,8 @@ def keep(rid):
     r = json.load(open(rp))
     pid, mn = rid.split("_")
     src = "/tmp/sw/%s/out/%s" % (pid, mn)
+    if mn.startswith("d"):  # fourth round
+        src = "/tmp/sw/%sd/out/m%s" % (pid.upper() if 'upper' in dir(pid) else pid, mn[1:])
     if mn.startswith("c"):  # third round
         src = "/tmp/sw/%sc/out/m%s" % (pid.upper() if 'upper' in dir(pid) else pid, mn[1:])
     if mn.startswith("b"):
@@ -63,7 +65,7 @@ def keep(rid):
 
 def index():
     rows = []
-    for d in sorted(glob.glob(os.path.join(OUT, "C*_[mbc]*"))):
+    for d in sorted(glob.glob(os.path.join(OUT, "C*_[mbcd]*"))):
         m = json.load(open(os.path.join(d, "meta.json")))
         rows.append("| %s | %s | %s | %s | %s |" % (m["id"], m.get("title", "").replace("|", "/"), ", ".join(m.get("files", [])), (m.get("needs", "") or "").replace("|", "/").replace("\n", " ")[:160], ", ".join(m.get("caught_by", [])) or "**missed**"))
     open(os.path.join(OUT, "INDEX.md"), "w").write(
